@@ -28,7 +28,13 @@ INFO = dict(
               "areas, edge lengths and normals of whole meshes under rigid motion and uniform scaling, lifted to R with "
               "Real.sqrt; the np.add.at scatter-add of vertex normals modelled pass by pass over any commutative monoid of rows "
               "and proved equal to the sum of incident normals; sums over edge slots by multiplicity; histories of queries, "
-              "masks and copies by induction over the call sequence; characterisation of the boundary toggle dictionary) "
+              "masks and copies by induction over the call sequence; characterisation of the boundary toggle dictionary; a "
+              "heap of array and object cells for what masking allocates, aliases and leaves alone) "
+              "+ the SOURCE TEXT of the anchored code translated into Lean on every run (harness/py2lean2.py, py2lean2s.py + "
+              "harness/trans_c17.py: 23 function bodies of adjacency.py, mesh/base.py, coloured.py, textured.py, normals.py over "
+              "a vocabulary of one Lean definition per numpy primitive, the three from_mask bodies and from_tri_mask a second "
+              "time on the heap) and proved equal, for all arguments, to the model definitions the theorems are about "
+              "(GenProps/C17Src, C17SrcGeom, C17SrcHeap: 36 obligations), the property theorems restated for the translated methods "
               "+ regenerated tables (attribute writes of every public query, method suppliers, names referred to by every "
               "transcribed body) with decide obligations "
               "+ model/implementation correspondence and an exact-rational property oracle on the real mesh classes",
@@ -53,14 +59,32 @@ INFO = dict(
                "triangulations are well formed; any history of geometry queries, masks, triangle masks and copies over mesh "
                "objects answers each query from the arrays of the object asked and never changes an existing object "
                "(history_pure; refuted as soon as one query memoises on the instance: history_memo_refuted); no public query "
-               "writes instance state (regenerated table).  The model is tied to /repo by running the real classes on generated "
+               "writes instance state (regenerated table).  TRANSLATED rather than transcribed (source text -> Lean on every "
+               "run, equality with the model proved for all arguments): mask_adjacency_array, reindex_adjacency_array, "
+               "TriMesh._isolated_mask / from_mask / from_tri_mask / edge_indices / unique_edge_indices / boundary_tri_index / "
+               "edge_vectors / edge_lengths / unique_edge_vectors / unique_edge_lengths / mean_edge_length / tri_areas (2-D, 3-D "
+               "and raising branch) / mean_tri_area / tri_normals / vertex_normals, ColouredTriMesh.from_mask, "
+               "TexturedTriMesh.from_mask, trilist_to_adjacency_array, _normalize (IEEE 0/0 -> nan -> 0 included), "
+               "compute_face_normals, compute_vertex_normals; mask_keeps_whole_triangles / renumber_consistent / "
+               "mask_drops_orphans (payloads sliced with the orphan-corrected mask, per class: src_from_mask_slices) / boundary / "
+               "unique-edge / area / length / normal clauses are restated for the translated methods (src_* theorems).  On the "
+               "heap (objects and arrays as cells, the same four bodies translated a second time) the object returned by "
+               "from_mask / from_tri_mask is new, holds the arrays the value-level method computes, carries the texture pixels "
+               "and every landmark group with equal content, shares no array with anything that existed before (so in-place "
+               "writes through the receiver never show through the result and vice versa), and no existing object changes - "
+               "along any sequence of maskings (src_from_mask_objects, heap_history).  The model is tied to /repo by the "
+               "translation obligations, by running"
+               " the real classes on generated "
                "meshes/masks/motions/scales/histories (2^-30 .. 2^20, float64 and float32, six index dtypes, C and Fortran "
-               "order) and diffing triangle lists, per-vertex arrays, point-graph edges, areas, edge lengths, means, normals, "
+               "order; thin triangles down to 1e-9 relative thickness judged at the conditioning of the exact area) and diffing "
+               "triangle lists, per-vertex arrays, point-graph edges, areas, edge lengths, means, normals, "
                "vertex-normal sums, boundary index, edge sets and whole observation traces against the Lean driver, and by the "
                "regenerated tables; the oracle decides the property on the real objects.",
     level_note="Trusted: Lean kernel; axioms propext/Classical.choice/Quot.sound; the Python harness and the driver's "
-               "parser; numpy fancy indexing / np.isin / np.unique / np.add.at semantics (modelled, exercised by the "
-               "correspondence); float rounding (the model is exact: Q for what the driver executes, R for the returned values; "
+               "parser; the translator (harness/py2lean2.py, py2lean2s.py) and the C17 vocabulary harness/trans_c17.py + "
+               "Core/C17Np.lean, Core/C17Heap.lean: one total Lean definition per numpy primitive (fancy / boolean indexing, "
+               "isin, unique, add.at, sort, reshape ... - a rule that mistranslated a primitive would make the proved model "
+               "disagree with the real classes in the correspondence); float rounding (the model is exact: Q for what the driver executes, R for the returned values; "
                "inputs are small dyadic rationals so masking is bit exact and geometry agrees to 1e-9 relative in float64, "
                "1e-4 in float32); the write table is measured on live objects (common.attr_writes) and the mechanism table "
                "reads code objects (co_names): neither is derived from the source text.",
@@ -70,10 +94,14 @@ INFO = dict(
          "triangles / scale is not 1 / history has >= 2 maskings",
     partial=["float rounding is outside the model: theorems are exact (Q, R); the code's float64 / float32 answers are compared "
              "with the exact ones to 1e-9 / 1e-4 relative on dyadic inputs, they are not proved to be close",
-             "landmarks and the texture image carried through masking as owned copies, and no array of the result being a "
-             "view of the receiver: observed by the correspondence on every masking case (reported as a broken tie), not modelled "
-             "in Lean; the frame condition of queries_pure / history_pure for the real classes is the regenerated table "
-             "(queryWrites_ok), measured on live objects rather than proved from the source"],
+             "the frame condition of queries_pure / history_pure for the real classes (no public query writes instance state) is "
+             "the regenerated table queryWrites_ok, measured on live objects rather than proved from the source; in the heap "
+             "model of masking `obj.copy()` is a vocabulary rule (the deep copy that property C06 proves of Copyable.copy) and "
+             "the PointCloud / Image / LandmarkManager objects hanging off a mesh are collapsed onto the arrays they hold; "
+             "np.sqrt is a parameter of the translated geometry (its contract is a hypothesis where needed: SqrtOn), the "
+             "IEEE specials of a division by zero are modelled, every other rounding is not",
+             "subsampled_grid_triangulation / init_2d_grid / init_from_depth_image and as_pointgraph's graph construction are "
+             "still transcribed (tied by the correspondence and the mechanism table), not translated"],
     assumptions=["triangle lists index valid vertices and each triangle has three distinct vertex indices",
                  "an all-true mask returns the mesh unchanged (vertices that had no triangle before masking are not "
                  "'left' without one by it); a mask keeping no whole triangle is outside the property's quantifier "
@@ -470,7 +498,7 @@ def rows_equal(a, b):
 def slim(case):
     """JSON-able replay payload"""
     keep = {k: case[k] for k in ("shape", "d", "cls", "points", "tris", "attrs", "mask", "by", "motion",
-                                 "trilist_dtype", "order", "pdtype", "landmarks", "exps", "hseed", "steps", "grid", "family") if k in case}
+                                 "trilist_dtype", "order", "pdtype", "landmarks", "exps", "hseed", "steps", "grid", "family", "thick") if k in case}
     return keep
 
 
@@ -629,8 +657,9 @@ def mask_case(ctx, case, lines=None, pending=None, cid=None):
                 extra["bound"] = [bool(x) for x in res.boundary_tri_index()]
             except Exception as e:   # noqa: BLE001
                 extra["error"] = type(e).__name__
-            # what the model does not carry: landmarks travel unchanged as an owned copy; nothing of the result
-            # is a view of the receiver (a write into the result cannot reach the mesh it came from)
+            # what the heap-level translation proves (GenProps/C17SrcHeap: src_from_mask_objects) observed on the real
+            # objects: landmarks travel unchanged as an owned copy; nothing of the result is a view of the receiver
+            # (a write into the result cannot reach the mesh it came from)
             if lm is not None:
                 try:
                     got = res.landmarks["probe"].points
@@ -1150,6 +1179,182 @@ def compare_scale(ctx, case, ob, model, cid):
                         break
 
 
+# ================================================================================ family: sliver
+#
+# Thin and nearly degenerate (but valid) triangles: the third vertex lies 1e-6 .. 1e-9 (relative) off the line through
+# the other two, near the origin and ~1e3 away from it, in 2-D and 3-D.  The exact area (rational arithmetic on the
+# float coordinates) is the reference; the tolerance is RELATIVE and follows the conditioning of the exact area:
+#   formula   the coded 0.5 * |ij x ik| (3-D) / 0.5 * |ij0 ik1 - ij1 ik0| (2-D) on float differences carries an absolute
+#             error below ~6u |ij| |ik|, i.e. a relative error below ~6u / sin(angle at the first corner) - allowed: 32u / sin;
+#   input     a rigid motion / uniform scale applied in floating point moves every coordinate by a few u x (coordinate
+#             magnitude M), which changes a triangle of altitude h by a relative ~ u M / h - allowed: 64u M / h.
+# A formula that cancels harder than that (seeded C17-5: Lagrange's identity, relative error ~ u / sin^2, NaN from a
+# negative radicand) is far outside both.
+
+U_DBL = 2.0 ** -53
+SLIVER_THICK = (1e-6, 3e-7, 1e-7, 3e-8, 1e-8, 3e-9, 1e-9)
+
+
+def _tri_exact(P, t_):
+    """exact (Fraction) squared area, squared lengths of ij, ik and of the longest edge of triangle t_ of the float rows P"""
+    a, b, c = (P[v] for v in t_)
+    u = [F(y) - F(x) for x, y in zip(a, b)]
+    v = [F(y) - F(x) for x, y in zip(a, c)]
+    w = [F(y) - F(x) for x, y in zip(b, c)]
+    uu, vv, ww, uv = sum(x * x for x in u), sum(x * x for x in v), sum(x * x for x in w), sum(x * y for x, y in zip(u, v))
+    return (uu * vv - uv * uv) / 4, uu, vv, max(uu, vv, ww)
+
+
+def gen_sliver_case(rng):
+    d = rng.choice([2, 3, 3])
+    far = rng.random() < 0.35
+    pts, tris, thick_used = [], [], []
+
+    def vec(kmax=12, den=8.0):
+        while True:
+            v = [rng.randint(-kmax, kmax) / den for _ in range(d)]
+            if sum(abs(x) for x in v) >= 0.5:
+                return v
+    for _ in range(rng.randint(1, 4)):
+        base = [rng.randint(-16, 16) / 8.0 + (rng.choice([-1, 1]) * rng.randint(700, 1300) if far else 0.0) for _ in range(d)]
+        dv = vec()
+        while True:
+            nv = vec(8, 8.0)
+            # not parallel to dv
+            if any(abs(dv[i] * nv[j] - dv[j] * nv[i]) > 1e-9 for i in range(d) for j in range(i + 1, d)):
+                break
+        th = rng.choice(SLIVER_THICK)
+        lam = rng.choice([0.5, 1.5, 2.0, 3.0, -1.0])
+        k = len(pts)
+        pa = list(base)
+        pb = [x + y for x, y in zip(base, dv)]
+        pc = [x + lam * y + th * z for x, y, z in zip(base, dv, nv)]
+        order = rng.choice([(0, 1, 2), (1, 2, 0), (2, 0, 1), (0, 2, 1)])
+        pts += [pa, pb, pc]
+        tris.append([k + order[0], k + order[1], k + order[2]])
+        thick_used.append(th)
+    for _ in range(rng.randint(0, 2)):                       # an ordinary triangle or two next to them
+        k = len(pts)
+        base = [rng.randint(-16, 16) / 8.0 for _ in range(d)]
+        pts += [base, [x + y for x, y in zip(base, vec())], [x + y for x, y in zip(base, vec())]]
+        tris.append([k, k + 1, k + 2])
+    # exact screening: every triangle has positive area and is resolved by the float grid (sin >= 1e-11)
+    for t_ in tris:
+        a2, uu, vv, _m = _tri_exact(pts, t_)
+        if a2 <= 0 or 4 * a2 < Fraction(1, 10 ** 22) * uu * vv:
+            raise ValueError("degenerate sliver: draw again")
+    case = dict(shape="sliver-far" if far else "sliver-thin", d=d, cls="plain", attrs={}, points=pts, tris=tris,
+                thick=thick_used)
+    mo = gen_motion(rng, d)
+    while mo["kind"] == "identity":
+        mo = gen_motion(rng, d)
+    case["motion"] = mo
+    return storage(rng, case)
+
+
+def sliver_case(ctx, case, lines=None, pending=None, cid=None):
+    import numpy as np
+    from menpo.transform import Rotation, Translation, UniformScale
+    site = "C17/sliver"
+    case["family"] = "sliver"
+    rp = dict(slim(case), call=replay_code(dict(case, family="geom")))
+    d, P, T = case["d"], case["points"], case["tris"]
+    mo = case["motion"]
+    A = [[Fraction(x) for x in r] for r in mo["A"]]
+    t = [Fraction(x) for x in mo["t"]]
+    s = Fraction(mo["s"])
+    kind = mo["kind"]
+    try:
+        mesh = build(case)
+        moved = mesh
+        if kind in ("rotation", "rigid"):
+            moved = Rotation(np.array([[float(x) for x in r] for r in A])).apply(moved)
+        if kind in ("scale", "scale+translate"):
+            moved = UniformScale(float(s), d).apply(moved)
+        if any(t):
+            moved = Translation(np.array([float(x) for x in t])).apply(moved)
+        a0 = [float(x) for x in mesh.tri_areas()]
+        a1 = [float(x) for x in moved.tri_areas()]
+        m0, m1 = float(mesh.mean_tri_area()), float(moved.mean_tri_area())
+    except Exception as e:   # noqa: BLE001
+        ctx.fail(site, "raises:" + type(e).__name__, "tri_areas raised %s: %s" % (type(e).__name__, str(e)[:100]), rp)
+        return True
+    Q = moved.points.tolist()
+    ok = ctx.check(len(a0) == len(T) and len(a1) == len(T), site, "shape", "tri_areas has the wrong length", rp)
+    if not ok:
+        return True
+    fin = all(math.isfinite(x) for x in a0 + a1)
+    ok &= ctx.check(fin, site, "area-not-finite",
+                    "tri_areas of a mesh with thin (non-degenerate) triangles is not finite: %r" % ([x for x in a0 + a1 if not math.isfinite(x)][:3],), rp)
+    ok &= ctx.check(all(x >= 0 for x in a0 + a1 if math.isfinite(x)), site, "negative-area", "a triangle area is negative", rp)
+    if not ok:
+        ctx.count("sliver:%dd:%s" % (d, kind))
+        return True
+    fac2 = float(s) * float(s)
+    M = 2.0 * max([1.0] + [abs(x) for r in P for x in r] + [abs(x) / max(1.0, float(s)) for r in Q for x in r] + [abs(float(x)) for x in t])
+    worst = 0.0
+    for j, t_ in enumerate(T):
+        e0 = _tri_exact(P, t_)
+        e1 = _tri_exact(Q, t_)
+        if e1[0] <= 0:
+            ctx.count("sliver:moved-triangle-collapsed-skipped")     # the float motion flattened it: no claim
+            continue
+        A0, A1 = math.sqrt(float(e0[0])), math.sqrt(float(e1[0]))
+        cond0 = math.sqrt(float(e0[1] * e0[2])) / (2.0 * A0)          # 1 / sin(angle at the first corner)
+        cond1 = math.sqrt(float(e1[1] * e1[2])) / (2.0 * A1)
+        tf0, tf1 = 32 * U_DBL * cond0 + 1e-13, 32 * U_DBL * cond1 + 1e-13
+        h0 = 2.0 * A0 / math.sqrt(float(e0[3]))                       # the smallest altitude (unit scale)
+        tin = 64 * U_DBL * M / h0
+        ok &= ctx.check(abs(a0[j] - A0) <= tf0 * A0, site, "area-value",
+                        "tri_areas()[%d] = %r, the exact area of that triangle is %r (relative error %.3g, conditioning allows %.3g)"
+                        % (j, a0[j], A0, abs(a0[j] - A0) / A0, tf0), rp)
+        ok &= ctx.check(abs(a1[j] - A1) <= tf1 * A1, site, "area-value",
+                        "after the motion tri_areas()[%d] = %r, the exact area of the moved triangle is %r (relative error %.3g, "
+                        "conditioning allows %.3g)" % (j, a1[j], A1, abs(a1[j] - A1) / A1, tf1), rp)
+        ok &= ctx.check(abs(a1[j] - fac2 * a0[j]) <= (tf0 + tf1 + tin) * fac2 * A0, site,
+                        "area-not-invariant" if s == 1 else "area-scaling",
+                        "triangle %d: area %r before, %r after the motion (expected %s; relative change %.3g, conditioning allows %.3g)"
+                        % (j, a0[j], a1[j], "equal" if s == 1 else "s^2 = %r times" % fac2,
+                           abs(a1[j] - fac2 * a0[j]) / (fac2 * A0), tf0 + tf1 + tin), rp)
+        worst = max(worst, abs(a0[j] - A0) / (tf0 * A0), abs(a1[j] - A1) / (tf1 * A1),
+                    abs(a1[j] - fac2 * a0[j]) / ((tf0 + tf1 + tin) * fac2 * A0))
+    ctx.notes["sliver_worst_error_over_tolerance"] = max(ctx.notes.get("sliver_worst_error_over_tolerance", 0.0), round(worst, 4))
+    ok &= ctx.check(abs(m0 - fmean(a0)) <= 1e-12 * max(a0) and abs(m1 - fmean(a1)) <= 1e-12 * max(a1), site, "mean-area",
+                    "mean_tri_area is not the mean of tri_areas", rp)
+    ctx.count("sliver:%dd:%s" % (d, kind))
+    ctx.count("sliver-shape:" + case["shape"])
+    for th in case.get("thick", []):
+        ctx.count("sliver-thickness:%g" % th)
+    if lines is not None and ok:
+        tl = "%d %s" % (len(T), " ".join(str(v) for t_ in T for v in t_))
+        ident = " ".join("1" if i == j else "0" for i in range(d) for j in range(d))
+        lines.append("%s.0 geom%d %s %s %s %s" % (cid, d, common.fmat(P), tl, ident, " ".join(["0"] * d)))
+        pending[cid] = (case, dict(a0=a0))
+    return True
+
+
+def compare_sliver(ctx, case, obs, model, cid):
+    """the exact areas of the Lean model (Q; squared in 3-D) against tri_areas, at the conditioning tolerance"""
+    d, P, T = case["d"], case["points"], case["tris"]
+    rp = dict(slim(case), call=replay_code(dict(case, family="geom")))
+    g = parse_geom(model[cid + ".0"], d)
+    if g is None:
+        ctx.mismatch("sliver", "model answered %r" % model[cid + ".0"][:80], rp)
+        return
+    for j, t_ in enumerate(T):
+        e0 = _tri_exact(P, t_)
+        q = g["A"][j]
+        if (q if d == 3 else q * q) != e0[0]:
+            ctx.mismatch("sliver/tri_areas", "triangle %d: the model's exact %s %s differs from the oracle's squared area %s"
+                         % (j, "squared area" if d == 3 else "area", q, e0[0]), rp)
+            return
+        A0 = float(q) if d == 2 else math.sqrt(float(q))
+        cond0 = math.sqrt(float(e0[1] * e0[2])) / (2.0 * A0)
+        if abs(obs["a0"][j] - A0) > (32 * U_DBL * cond0 + 1e-13) * A0:
+            ctx.mismatch("sliver/tri_areas", "triangle %d: model %r vs implementation %r" % (j, A0, obs["a0"][j]), rp)
+            return
+
+
 # ================================================================================ family: history
 
 def gen_history_case(rng):
@@ -1609,7 +1814,8 @@ def shrink_tris(case, still_fails):
 
 
 def run_family(ctx, fam, case, lines=None, pending=None, cid=None):
-    f = {"mask": mask_case, "geom": geom_case, "bound": bound_case, "scale": scale_case, "history": history_case}[fam]
+    f = {"mask": mask_case, "geom": geom_case, "bound": bound_case, "scale": scale_case, "history": history_case,
+         "sliver": sliver_case}[fam]
     n_before = len(ctx.failures)
     known_before = dict(ctx.known_seen)
     nt = f(ctx, case, lines, pending, cid)
@@ -1647,7 +1853,7 @@ def _retry(gen):
 
 
 GEN = {"mask": _retry(gen_mask_case), "geom": _retry(gen_geom_case), "bound": _retry(gen_bound_case),
-       "scale": _retry(gen_scale_case), "history": _retry(gen_history_case)}
+       "scale": _retry(gen_scale_case), "history": _retry(gen_history_case), "sliver": _retry(gen_sliver_case)}
 
 
 def large_index_cases(ctx, n_cases):
@@ -1723,11 +1929,22 @@ def search(ctx):
                 ctx.searched += 1
                 if ctx.failures:
                     return True
+    for fam in getattr(ctx, "_c17_search_first", []):      # the families behind a broken translation obligation first
+        for k in range(1500 if fam in ("mask", "bound") else 300):
+            run_family(ctx, fam, GEN[fam](rng))
+            ctx.searched += 1
+            if ctx.failures:
+                return True
     large_index_cases(ctx, 40)
     if ctx.failures:
         return True
+    for k in range(300):                       # thin / nearly degenerate triangles first: cancellation shows there
+        run_family(ctx, "sliver", GEN["sliver"](rng))
+        ctx.searched += 1
+        if ctx.failures:
+            return True
     for k in range(ctx.n(4000, 12000)):
-        fam = ("mask", "geom", "bound", "history", "mask", "geom", "bound", "scale")[k % 8]
+        fam = ("mask", "geom", "bound", "history", "mask", "geom", "bound", "scale", "sliver")[k % 9]
         run_family(ctx, fam, GEN[fam](rng))
         ctx.searched += 1
         if ctx.failures:
@@ -1775,16 +1992,45 @@ def corpus(ctx, lines, pending):
                 ctx.case(("corpus-file", os.path.basename(path), tag), nontrivial=True)
 
 
+def generated_src(ctx):
+    """the SOURCE-TEXT tie: menpo's mesh code translated into Lean now (harness/trans_c17.py), obligations
+    GenProps/C17Src*.lean (translated = Core definition, for all arguments).  An untranslatable function gets a stub, so
+    its obligation breaks: BROKEN OBLIGATION -> directed search, never a crash."""
+    from . import trans_c17
+    files, reasons = trans_c17.generated_files()
+    ctx.notes["source_translation"] = {"functions": len(trans_c17.items()), "obligations": trans_c17.N_OBLIGATIONS,
+                                       "untranslatable": reasons}
+    ok = common.build_generated(ctx, files, trans_c17.GEN_TARGETS, trans_c17.N_OBLIGATIONS)
+    if not ok and ctx.broken_obligations:
+        b = ctx.broken_obligations[-1]
+        b["obligation"] = "MenpoModel.GenProps.C17Src / C17SrcGeom / C17SrcHeap: translated definition = Core definition"
+        b["untranslatable"] = reasons
+        failing = sorted({tok for l in b.get("errors", []) for tok in l.replace(":", " ").replace(".lean", " ").split()
+                          if tok.startswith("gen") or tok.startswith("C17Src")})
+        b["where"] = failing[:12]
+        text = " ".join(b.get("errors", [])) + " " + " ".join(reasons) + " " + b.get("output_tail", "")
+        fams = []
+        for key, fam in trans_c17.FAMILY_OF:
+            if key in text and fam not in fams:
+                fams.append(fam)
+        ctx._c17_search_first = fams
+    return ok
+
+
 def prepare(ctx):
-    """regenerate the write table, build, audit.  A broken regenerated obligation is what /repo says now: it is
-    recorded (ctx.broken_obligations -> directed search -> VIOLATION), the hand-written part is still built and audited."""
-    if generated(ctx):
-        common.prepare_lean(ctx, PROP, IMPORTS + GEN_IMPORTS, THEOREMS + GEN_THEOREMS,
-                            targets=TARGETS + ["MenpoModel.GenProps.C17"])
-        # the regenerated obligations are counted once (coverage.generated_obligations); their audit is kept in the notes
-        ctx.notes["generated_obligation_axioms"] = {t: ctx.theorems.pop(t) for t in GEN_THEOREMS if t in ctx.theorems}
-    else:
-        common.prepare_lean(ctx, PROP, IMPORTS, THEOREMS, targets=TARGETS)
+    """regenerate the tables and the source translation, build, audit.  A broken regenerated obligation is what /repo
+    says now: it is recorded (ctx.broken_obligations -> directed search -> VIOLATION), the hand-written part is still
+    built and audited."""
+    from . import trans_c17
+    ok_tables = generated(ctx)
+    ok_src = generated_src(ctx)
+    imports = IMPORTS + (GEN_IMPORTS if ok_tables else []) + (trans_c17.OBL_MODULES if ok_src else [])
+    theorems = THEOREMS + (GEN_THEOREMS if ok_tables else []) + ((trans_c17.OBLIGATIONS + trans_c17.SRC_THEOREMS) if ok_src else [])
+    targets = TARGETS + (["MenpoModel.GenProps.C17"] if ok_tables else []) + (trans_c17.OBL_MODULES if ok_src else [])
+    common.prepare_lean(ctx, PROP, imports, theorems, targets=targets)
+    # the regenerated obligations are counted once (coverage.generated_obligations); their audit is kept in the notes
+    ctx.notes["generated_obligation_axioms"] = {t: ctx.theorems.pop(t) for t in GEN_THEOREMS + trans_c17.OBLIGATIONS
+                                                if t in ctx.theorems}
 
 
 def run(ctx):
@@ -1795,12 +2041,12 @@ def run(ctx):
     rng = ctx.rng
     lines, pending = [], {}
     corpus(ctx, lines, pending)
-    plan = [("scale", ctx.n(40, 300)), ("history", ctx.n(250, 2500)), ("mask", ctx.n(2000, 22000)), ("geom", ctx.n(1000, 8000)),
-            ("bound", ctx.n(1500, 12000))]
+    plan = [("scale", ctx.n(40, 300)), ("sliver", ctx.n(120, 1500)), ("history", ctx.n(250, 2500)), ("mask", ctx.n(2000, 22000)),
+            ("geom", ctx.n(1000, 8000)), ("bound", ctx.n(1500, 12000))]
     for fam, cnt in plan:
         for k in range(cnt):
             case = GEN[fam](rng)
-            cid = "%s%d" % ({"scale": "z", "history": "h"}.get(fam, fam[0]), k)
+            cid = "%s%d" % ({"scale": "z", "history": "h", "sliver": "v"}.get(fam, fam[0]), k)
             nt = run_family(ctx, fam, case, lines, pending, cid)
             sample = {"family": fam, "class": case.get("cls"), "shape": case["shape"], "n_points": len(case["points"]),
                       "trilist": case["tris"][:6], "mask": case.get("mask"), "motion": (case.get("motion") or {}).get("kind")}
@@ -1828,6 +2074,8 @@ def run(ctx):
             compare_scale(ctx, case, obs, model, cid)
         elif fam == "history":
             compare_history(ctx, case, obs, model[cid])
+        elif fam == "sliver":
+            compare_sliver(ctx, case, obs, model, cid)
         elif fam == "grid":
             tk = model[cid].split()
             mt = [[int(x) for x in tk[2 + 3 * j:5 + 3 * j]] for j in range(int(tk[1]))] if tk[0] == "ok" else None
@@ -1873,6 +2121,8 @@ def replay(ctx, path):
                 compare_scale(ctx, c, obs, model, cid)
             elif cf == "history":
                 compare_history(ctx, c, obs, model[cid])
+            elif cf == "sliver":
+                compare_sliver(ctx, c, obs, model, cid)
             else:
                 print("implementation:", obs)
                 compare_bound(ctx, c, obs, model, cid)
